@@ -16,9 +16,9 @@ package spynode
 //@   ensures content: result1 == nil && height >= -1 ==> forall(k, 0, len(result0.Headers), result0.Headers[k] != nil && *result0.Headers[k] == internalStorage.Hdr(node.blocks, startOf(node, height, maxCount) + k))
 //@   ensures negative_empty: result1 == nil && height < -1 ==> len(result0.Headers) == 0
 //@   ensures frame: same(node.blocks, node.blocks.height, node.blocks.lastHeaders) && oldrows(node.blocks.lastHeaders)
-//@   loop 0 invariant !held(node.blocks.mutex) && startHeight <= i && i <= startHeight + maxCount && same(node.blocks, node.blocks.height, node.blocks.lastHeaders) && oldrows(node.blocks.lastHeaders)
-//@   loop 0 invariant height >= -1 ==> startHeight == startOf(node, height, maxCount) && startHeight >= 0 && len(headers) == i - startHeight && (i > startHeight ==> i <= tipOf(node) + 1)
-//@   loop 0 invariant height < -1 ==> len(headers) == 0 && i == startHeight && startHeight == height
+//@   loop 0 invariant !held(node.blocks.mutex) && startHeight <= _i && _i <= startHeight + maxCount && same(node.blocks, node.blocks.height, node.blocks.lastHeaders) && oldrows(node.blocks.lastHeaders)
+//@   loop 0 invariant height >= -1 ==> startHeight == startOf(node, height, maxCount) && startHeight >= 0 && len(headers) == _i - startHeight && (_i > startHeight ==> _i <= tipOf(node) + 1)
+//@   loop 0 invariant height < -1 ==> len(headers) == 0 && _i == startHeight && startHeight == height
 //@   loop 0 invariant forall(k, 0, len(headers), headers[k] != nil && *headers[k] == internalStorage.Hdr(node.blocks, startHeight + k))
 //@   loop 0 invariant internalStorage.InvMem(node.blocks) && internalStorage.InvFull(node.blocks) && sinceloop(stsame()) && (headers == nil || fresharr(headers))
 
@@ -153,7 +153,24 @@ package spynode
 // fetchSpentOutputs fills tx.Outputs of the record it is handed and writes nothing else of the
 // program heap that existed before (assumed frame; its result is not specified here).
 //@ func fetchSpentOutputs
+//@   serves C03
 //@   opt frame = freshonly except client.Tx!Outputs
+//@   opt nomonitor = 1
+//@   opt summary = FetchTxState
+//@   opt track = FetchTxState
+//@   safety index nil
+//@   requires tx != nil && tx.Tx != nil
+//@   given forall(k, 0, len(tx.Tx.TxIn), tx.Tx.TxIn[k] != nil)
+//@   loop 0 invariant tx != nil && tx.Tx != nil && 0 <= _i && _i <= len(tx.Tx.TxIn) && len(tx.Outputs) == len(tx.Tx.TxIn) && sinceloop(same(tx.Outputs, tx.Tx, tx.Tx.TxIn) && sameseq(tx.Tx.TxIn))
+//@   loop 0 invariant forall(k, 0, _i, tx.Outputs[k] == nil ==> len(toFetch) > 0)
+//@   loop 1 invariant tx != nil && 0 <= _i && _i <= len(tx.Outputs) && 0 <= utxoIndex && sinceloop(same(tx.Outputs)) && forall(k, 0, _i, tx.Outputs[k] != nil)
+// an input whose parent transaction is in the store carries exactly the parent's output of that
+// index (the object of the fetched record); only an index beyond the parent's outputs gets the
+// empty placeholder
+//@   assert spends_parent_output at elemstore Outputs loop 0 : [C03] idx == _i && (tx.Tx.TxIn[idx].PreviousOutPoint.Index != 4294967295 && lastres(FetchTxState, 0, *client.Tx) != nil && lastres(FetchTxState, 0, *client.Tx).Tx != nil
+//@        && int(tx.Tx.TxIn[idx].PreviousOutPoint.Index) < len(lastres(FetchTxState, 0, *client.Tx).Tx.TxOut)
+//@        ==> v == lastres(FetchTxState, 0, *client.Tx).Tx.TxOut[int(tx.Tx.TxIn[idx].PreviousOutPoint.Index)])
+//@   ensures filled: [C03] result == nil ==> len(tx.Outputs) == len(tx.Tx.TxIn) && forall(k, 0, len(tx.Outputs), tx.Outputs[k] != nil)
 
 // An unconfirmed transaction reaches the handlers as new only through the unconfirmed set's Add
 // gate (added == true: first time this txid enters the set) and only if it is relevant; with
